@@ -16,6 +16,8 @@ import (
 )
 
 var table = map[string]func(*core.Ctx){
+	"C01": props.C01,
+	"C02": props.C02,
 	"C09": props.C09,
 }
 
